@@ -83,16 +83,18 @@ def subkernel (p : Params) (ofmBlockZ clippedOfm ifmBlockZ clippedIfm sy sx subH
   (List.range (if p.isDepthwise then 1 else p.ifmUblockDepth)).map fun ifmUz =>
     cell p ofmBlockZ ifmBlockZ sy sx subH subW ifmOuter ofmUblk element ifmInner ofmUz ifmUz
 
+/-- `clipped_ifm_block_depth` of `reorder` -/
+def clippedIfm (p : Params) (Bi : Nat) : Nat :=
+  if p.isDepthwise then p.ifmUblockDepth
+  else if p.isPartkernel then min p.ifmBlockDepth (p.ifmDepth - Bi) else p.ifmBlockDepth
+
 /-- one (OFM block, IFM block) brick -/
 def brick (p : Params) (ofmBlockZ clippedOfm ifmBlockZ : Nat) : List (Option Coord) :=
-  let clippedIfm :=
-    if p.isDepthwise then p.ifmUblockDepth
-    else if p.isPartkernel then min p.ifmBlockDepth (p.ifmDepth - ifmBlockZ) else p.ifmBlockDepth
   (stepRange p.kh p.decompH).flatMap fun sy =>
   let subH := min (p.kh - sy) p.decompH
   (stepRange p.kw p.decompW).flatMap fun sx =>
   let subW := min (p.kw - sx) p.decompW
-  subkernel p ofmBlockZ clippedOfm ifmBlockZ clippedIfm sy sx subH subW
+  subkernel p ofmBlockZ clippedOfm ifmBlockZ (clippedIfm p ifmBlockZ) sy sx subH subW
 
 /-- all loops; every step is assumed positive (see `reorder`) -/
 def traverse (p : Params) : List (Option Coord) :=
@@ -105,20 +107,32 @@ def traverse (p : Params) : List (Option Coord) :=
 def Params.stepsPositive (p : Params) : Bool :=
   p.ifmUblockDepth > 0 && p.ofmUblockDepth > 0 && p.ofmBlockDepth > 0 && p.decompH > 0 && p.decompW > 0
 
-/-- a valid depth-first (not depthwise) configuration: positive steps, block depths that are whole numbers of
-    micro-blocks — the hypotheses under which the traversal is proved to be a bijection plus padding -/
-structure ValidDepthFirst (p : Params) : Prop where
-  notDepthwise : p.isDepthwise = false
-  notPartkernel : p.isPartkernel = false
+/-- a valid configuration of any traversal: positive steps, block depths that are whole numbers of
+    micro-blocks, a depthwise volume has one input channel per output channel (`ifm_depth = 1`) -/
+structure ValidConfig (p : Params) : Prop where
   iuPos : 0 < p.ifmUblockDepth
   ouPos : 0 < p.ofmUblockDepth
   obdPos : 0 < p.ofmBlockDepth
   dhPos : 0 < p.decompH
   dwPos : 0 < p.decompW
-  /-- the OFM block depth is a whole number of OFM micro-blocks -/
   ouDvd : p.ofmUblockDepth ∣ p.ofmBlockDepth
-  /-- the IFM block depth (16 or 32) is a whole number of IFM micro-blocks -/
   iuDvd : p.ifmUblockDepth ∣ p.ifmBlockDepth
+  depthwiseIfm : p.isDepthwise = true → p.ifmDepth = 1
+
+/-- kernel elements per (OFM, IFM) element pair after sub-kernel decomposition and padding:
+    `Σ_subkernels subkernel_elements` (equals `kh * kw` for depth-first) -/
+def kernelElems (p : Params) : Nat :=
+  ((stepRange p.kh p.decompH).map fun sy =>
+    ((stepRange p.kw p.decompW).map fun sx =>
+      p.subkernelElements (min (p.kw - sx) p.decompW) (min (p.kh - sy) p.decompH)).sum).sum
+
+/-- IFM factor of the whole traversal -/
+def ifmFactor (p : Params) : Nat :=
+  if p.isDepthwise then 1
+  else if p.isPartkernel then roundUp p.ifmDepth p.ifmUblockDepth else roundUp p.ifmDepth p.ifmBlockDepth
+
+/-- closed form of `padded_length` (proved equal to the traversal length: `reorder_length`) -/
+def paddedLength (p : Params) : Nat := roundUp p.ofmDepth p.ofmUblockDepth * kernelElems p * ifmFactor p
 
 /-- `reorder(...)`: the emitted coordinate list; `none` when a loop step is 0 -/
 def reorder (p : Params) : Option (List (Option Coord)) :=
